@@ -53,12 +53,18 @@ def step (st : St) (j : Json) : Except String (St × Json × List Fired) := do
   let (s', e) ← match op with
     | "stake" => pure (stakeOp s (← jnat j "acct") (← jstr j "denom") (← jnat j "amt"))
     | "unstake" => pure (unstakeOp s (← jnat j "acct") (← jstr j "denom") (← jnat j "amt"))
+    | "unstakeMulti" => do
+      let coins ← (← jarr j "coins").mapM fun e => match e with
+        | .arr #[d, a] => do pure ((← asStr d), (← asNat a))
+        | _ => throw "bad coin"
+      pure (unstakeMultiOp s (← jnat j "acct") coins)
     | "delegate" => pure (delegateOp s (← jnat j "acct") (← jnat j "val") (← jnat j "amt"))
     | "undelegate" => pure (undelegateOp s (← jnat j "acct") (← jnat j "val") (← jnat j "amt"))
     | "redelegate" => pure (redelegateOp s (← jnat j "acct") (← jnat j "src") (← jnat j "dst") (← jnat j "amt"))
     | "setLock" => pure (setLockOp s (← jnat j "acct") (← jstr j "vault") (← jint j "power"))
     | "deactivate" => pure (deactivateOp s (← jstr j "vault"))
     | "setAllowed" => pure (setAllowedOp s (← jstrList j "denoms"), Err.ok)
+    | "reimport" => pure (s, Err.ok)       -- genesis export → validate → import on a store branch: nothing changes
     | _ => throw s!"unknown op {op}"
   let st' := { st with s := s' }
   -- monitors on the implementation's dump
@@ -77,7 +83,7 @@ def step (st : St) (j : Json) : Except String (St × Json × List Fired) := do
       let power := ia.deleg.foldl (· + ·) 0 +
         ((s.denoms.zip ia.stake).filter (fun (d, _) => allowedAfter.contains d)).foldl (fun acc (_, x) => acc + x) 0
       let maxLock := (ia.index.filter fun (_, k) => ivaults.any fun (k', b) => k' == k && b).foldl (fun m (p, _) => max m p) 0
-      let reducing := op == "unstake" || op == "undelegate" || op == "redelegate"
+      let reducing := op == "unstake" || op == "unstakeMulti" || op == "undelegate" || op == "redelegate"
       if reducing && (jnat j "acct").toOption == some a && power < maxLock then
         fired := fired ++ [{ name := "power_below_active_lock_after_withdrawal", detail := mkObj [("acct", jn a), ("power", jn power), ("lock", jn maxLock), ("op", js op)] }]
     if op == "setLock" then
@@ -95,7 +101,10 @@ def step (st : St) (j : Json) : Except String (St × Json × List Fired) := do
     let total := (iaccts.map fun ia => ia.stake.getD i 0).foldl (· + ·) 0
     if imodule.getD i 0 ≠ total + (jnat j "moduleBase").toOption.getD 0 * 0 then
       fired := fired ++ [{ name := "module_balance_ne_sum_of_stakes", detail := mkObj [("denom", js d), ("module", jn (imodule.getD i 0)), ("stakes", jn total)] }]
-  pure (st', (dump st').setObjVal! "err" (js (errCode e)), fired)
+  let mout := (dump st').setObjVal! "err" (js (errCode e))
+  if op == "reimport" && !jsonEq out mout then
+    fired := fired ++ [{ name := "genesis_roundtrip_changes_state", detail := mkObj [("err", js ierr)] }]
+  pure (st', mout, fired)
 
 def initSt (j : Json) : St :=
   let n := (jnat j "naccts").toOption.getD 3
